@@ -5,6 +5,7 @@ package sctp
 // reads into short buffers, read deadlines swept across the arrival instant.
 
 import (
+	"encoding/binary"
 	"fmt"
 	"runtime"
 	"testing"
@@ -215,6 +216,107 @@ func init() {
 						w.heal(10 * time.Second)
 					}
 					w.heal(30 * time.Second)
+					w.snapAll = true
+					w.quiesce()
+					w.tr.emit(map[string]any{"ev": "expect", "drained": true, "t": w.now()})
+					w.finish(true)
+				})
+			}
+			// 4c. T3-rtx back-off: every copy of one chunk is lost while newer messages get through and are gap-acked;
+			//     the SACKs that do not advance the cumulative ack point must not restart the timer (C19_T3Backoff)
+			if next() {
+				label := fmt.Sprintf("api-t3backoff-il%v#%d", il, k)
+				vfBubble(t, label, func() {
+					w := vfNewWorld(vfWorldOpt{Label: label, Trace: tr, A: vfEpCfg{InitTSN: 21, Tag: 0xA6, IL: il}, B: vfEpCfg{InitTSN: 77, Tag: 0xB6, IL: il, Server: true}})
+					if !w.vfConnect() {
+						w.finish(true)
+						return
+					}
+					w.open(0, 1, 51)
+					w.write(0, 1, 90, 51)
+					w.pump(10)
+					w.accept(1)
+					w.read(1, 1, 1<<16)
+					w.write(0, 1, 100, 51) // the victim: TSN 21+1
+					for _, p := range w.pending(0) {
+						w.drop(p.id)
+					}
+					for round := 0; round < 4; round++ {
+						// wait for the T3 retransmission of the victim and lose it again
+						for i := 0; i < 40 && len(w.pending(0)) == 0; i++ {
+							w.tick(70 * time.Second)
+						}
+						for _, p := range w.pending(0) {
+							w.drop(p.id)
+						}
+						// a newer message gets through: the receiver gap-acks it at once, the cumulative point stays
+						w.write(0, 1, 60+round, 51)
+						for i := 0; i < 6; i++ {
+							moved := false
+							for _, p := range w.pending(-1) {
+								d := vfDecodePacket(p.raw)
+								victim := false
+								for _, c := range d.Chunks {
+									if (c.Typ == 0 || c.Typ == 64) && len(c.Val) >= 4 && binary.BigEndian.Uint32(c.Val[0:4]) == 21+1 {
+										victim = true
+									}
+								}
+								if victim {
+									w.drop(p.id)
+								} else {
+									w.deliver(p.id)
+								}
+								moved = true
+							}
+							if !moved {
+								break
+							}
+						}
+					}
+					w.heal(200 * time.Second)
+					w.snapAll = true
+					w.quiesce()
+					w.tr.emit(map[string]any{"ev": "expect", "drained": true, "t": w.now()})
+					w.finish(true)
+				})
+			}
+			// 4d. a SACK is handed over at the very instant the T3-rtx timer expires (the timer callback and the
+			//     SACK handler run concurrently; they take the association lock and the timer mutex): no deadlock
+			if next() {
+				label := fmt.Sprintf("api-t3race-il%v#%d", il, k)
+				vfBubble(t, label, func() {
+					w := vfNewWorld(vfWorldOpt{Label: label, Trace: tr, A: vfEpCfg{InitTSN: 31, Tag: 0xA6, IL: il}, B: vfEpCfg{InitTSN: 88, Tag: 0xB6, IL: il, Server: true}})
+					if !w.vfConnect() {
+						w.finish(true)
+						return
+					}
+					w.open(0, 1, 51)
+					for round := 0; round < 12; round++ {
+						rto := time.Duration(w.ep[0].a.rtoMgr.getRTO()) * time.Millisecond
+						sentAt := time.Now()
+						w.write(0, 1, 50+round, 51)
+						for _, p := range w.pending(0) {
+							w.deliver(p.id)
+						}
+						w.accept(1)
+						w.read(1, 1, 1<<16)
+						// the receiver's SACK (delayed by up to 200 ms) is kept in the network until the T3 deadline
+						w.sleep(300 * time.Millisecond)
+						if d := time.Until(sentAt.Add(rto)); d > 0 {
+							time.Sleep(d)
+						}
+						for _, p := range w.pending(1) {
+							if q := w.take(p.id); q != nil {
+								w.tr.emit(map[string]any{"ev": "rx", "to": 0, "pid": q.id, "t": w.now(), "ok": true})
+								w.push(0, q.raw)
+							}
+						}
+						w.quiesce()
+						w.pump(20)
+						w.sleep(500 * time.Millisecond)
+						w.pump(20)
+					}
+					w.heal(100 * time.Second)
 					w.snapAll = true
 					w.quiesce()
 					w.tr.emit(map[string]any{"ev": "expect", "drained": true, "t": w.now()})
